@@ -33,7 +33,7 @@ PROP = {
     ],
     "legs": [
         {"name": "plain", "build": "plain", "pkg": "vrt", "cmd": "c14", "shards": 16,
-         "args": {"quick": ["--iters", 450, "--budget-ms", 75000],
+         "args": {"quick": ["--iters", 700, "--budget-ms", 75000],
                   "thorough": ["--iters", 4000, "--budget-ms", 480000]},
          "timeout_s": {"quick": 300, "thorough": 1200}},
         {"name": "asan", "build": "asan", "pkg": "vrt", "cmd": "c14", "shards": 8,
